@@ -310,6 +310,55 @@ def fallback_rule(f, P, rep):
     rep.ob('C11.6', 'zero-write fallback in call_fallocate', ok, detail)
     if not ok:
         rep.violation('C11.6', 'C11.6:call_fallocate:fallback', b.where(0), 'call_fallocate has no zero-write fallback for the same offset and length when the punch fails')
+        return
+    # every failure of the backend request takes the fallback: from the Err edge of the test of the request's result no
+    # return is reachable without passing the zero write
+    good = {bi for bi, t in writes}
+    n = 0
+    for sbi in sorted(b.reachable()):
+        st = b.blocks[sbi]['term']
+        if st['k'] != 'switch':
+            continue
+        d = dp.of_operand(st['d'], (sbi, 10 ** 6))
+        if not any(x[0] == 'fn' and x[1].endswith('Qcow2IoOps::fallocate') for x in d):
+            continue
+        if any(x[0] == 'fn' and x[1].endswith('::call_write') for x in d):
+            continue
+        # a test of the discriminant of the request's Result: value 1 = Err
+        errt = [x['t'] for x in st['ts'] if int(x['v']) == 1]
+        if len(st['ts']) == 1 and int(st['ts'][0]['v']) == 0:
+            errt = [st['o']]
+        if not errt or not _is_result_discr(f, b, st):
+            continue
+        n += 1
+        esc = [r for r in b.reachable(errt[0], avoid=good) if b.blocks[r]['term']['k'] == 'return' and not b.blocks[r]['cleanup']]
+        if errt[0] in good:
+            esc = []
+        ok2 = not esc
+        rep.ob('C11.6', 'every failure of the backend request reaches the zero write (test at %s)' % b.where(sbi), ok2,
+               'a return is reachable from the Err edge without the zero write' if esc else '')
+        if not ok2:
+            rep.violation('C11.6', 'C11.6:call_fallocate:partial-fallback', b.where(sbi),
+                          'call_fallocate returns without writing zeros for some failures of the backend\'s punch/zero request (only '
+                          'selected error kinds fall back): a refused punch makes discard() fail after the cluster was already unmapped '
+                          'and released, and the rest of the range is not processed')
+    rep.floor('tests of the fallocate result in call_fallocate', n, 1)
+
+
+def _is_result_discr(f, b, st):
+    """the switch operand is the discriminant of a Result"""
+    if st['d']['k'] not in ('copy', 'move'):
+        return False
+    l = st['d']['pl']['l']
+    for bl in b.blocks:
+        for s_ in bl['st']:
+            if s_['k'] == 'assign' and s_['pl']['l'] == l and not s_['pl']['p'] and s_['rv']['k'] == 'discr':
+                pl = s_['rv']['pl']
+                if pl['p']:
+                    return False
+                ty = f.types[b.locals[pl['l']]]
+                return ty['k'] == 'adt' and ty.get('p') == 'std::result::Result'
+    return False
 
 
 # --------------------------------------------------------------------------- C11.7
